@@ -31,8 +31,9 @@ ASSUMPTIONS = ["guard of every theorem that quantifies over representations: fv 
                "LevyRepresentation has exactly the members ZERO, CENTER, ONEONE, TILDE (rep in 1..4)"]
 THEOREM_NOTES = {
     "number system": "proved over Q inside a Section with abstract m1/m2 (simplification of DESIGN 2.1: no R instance)",
-    "C04_variance_gap": "not proved: the bound |sum x_k^2 q_k + (sig_h^2 - sigma^2) - m2(l,r)| <= sum osc_k(x^2) q_k is not formalised; "
-                        "C04_variance_added states what is added to sigma^2 (nothing / the central cell's second moment)",
+    "C04_variance_gap": "proved: |sum_k x_k^2 q_k - int_{outside the central cell} x^2 nu| <= sum_k (sup_k x^2 - inf_k x^2) q_k under the per-cell "
+                        "hypothesis inf q_k <= int_cell x^2 nu <= sup q_k (C09's positivity, not formally composed); with C04_variance_added "
+                        "this is the variance statement for both variation flags; the copula diffusion-matrix adjustment is not modelled",
     "copula margins": "C04_copula_margins: every margin of the REPAIRED copula chain (per-margin cut-off flag, fix-grid2 9ea0f4f; own axis, "
                       "fix-grid 7d6dfd9) reproduces its mean; C04_joint_flag_bias quantifies the bias of the previous code (F-C04-2)",
     "satisfiability": "total additivity of int x nu is assumed only by the finite-variation theorem; C04_mean_identity_infinite_variation "
@@ -41,7 +42,7 @@ THEOREM_NOTES = {
                     "sum x_k q_k with C01's q), C04_mean_rate_explicit (the right-hand side in terms of int_l^r x nu) and "
                     "C04_conversions_preserve_mean (all four generated conversions keep the first cumulant)",
 }
-LEVEL_TEXT = ("Proof: 11 Coq theorems (closed under the global context): compute_mu_h's running-boundary loop equals sum_k x_k q_k for every "
+LEVEL_TEXT = ("Proof: 12 Coq theorems (closed under the global context): compute_mu_h's running-boundary loop equals sum_k x_k q_k for every "
               "axis; process_drift + sum_k x_k q_k equals the first cumulant per unit time of (a, sigma, nu|[l,r]) in the declared "
               "representation for all four representations and both variation flags (pure algebra over additivity of the first-moment "
               "integral; the four conversions are re-translated from levymodel.py on every run); sigma_h^2 = sigma^2 for finite variation "
